@@ -20,7 +20,7 @@ if git apply --check "$D/patch.diff" 2>/dev/null; then applies=true; fi
 run_demos() { # returns 0 if all demos pass
   local rc=0
   for t in $DEMOS; do
-    timeout 600 cargo test --offline --test "$t" -- --test-threads 1 > "$D/demo_$1_$t.log" 2>&1 || rc=1
+    timeout 600 cargo test --offline ${FEATURES:-} --test "$t" -- --test-threads 1 > "$D/demo_$1_$t.log" 2>&1 || rc=1
   done
   return $rc
 }
